@@ -3,10 +3,13 @@
 A stand-in model object with functions of fixed signatures drawn from a pool; which pooled names are
 states / choices and which functions are part of the model are symbolic flags."""
 import inspect
-from types import SimpleNamespace
 from typing import Dict, List, Tuple
 
+from lcm.grids import LinspaceGrid
 from lcm.input_processing.create_params_template import _create_function_params
+from lcm.user_model import Model
+
+G = LinspaceGrid(start=0, stop=1, n_points=2)
 
 
 def _utility(v1, v2, p1, f1, _period, zeta):
@@ -29,7 +32,12 @@ def _v_constraint(v1, v2, v3, p1):
     return True
 
 
-POOL = {"utility": _utility, "f1": _f1, "f2": _f2, "next_v1": _next_v1, "v_constraint": _v_constraint}
+def _n_constraint(next_v1, v2, p1, p4):
+    # consumes the OUTPUT of a transition function: next_v1 is a model function, not a parameter
+    return True
+
+
+POOL = {"utility": _utility, "f1": _f1, "f2": _f2, "next_v1": _next_v1, "v_constraint": _v_constraint, "n_constraint": _n_constraint}
 VARS = ["v1", "v2", "v3"]
 
 
@@ -44,8 +52,8 @@ def check_function_params(is_state: Tuple[bool, bool, bool], is_choice: Tuple[bo
     function or the period; every value is initialised (nan)
     post: _
     """
-    states = {v: None for v, s in zip(VARS, is_state) if s}
-    choices = {v: None for v, s, c in zip(VARS, is_state, is_choice) if c and not s}
+    states = {v: G for v, s in zip(VARS, is_state) if s}
+    choices = {v: G for v, s, c in zip(VARS, is_state, is_choice) if c and not s}
     funcs = {"utility": _utility}
     for name, on in zip(["f1", "next_v1"], has):
         if on:
@@ -53,7 +61,12 @@ def check_function_params(is_state: Tuple[bool, bool, bool], is_choice: Tuple[bo
     if has[0] and has[1]:
         funcs["f2"] = _f2
         funcs["v_constraint"] = _v_constraint
-    model = SimpleNamespace(functions=funcs, states=states, choices=choices)
+    if has[1]:
+        funcs["n_constraint"] = _n_constraint
+    # a real Model object (validation bypassed: which names are states is symbolic here)
+    model = object.__new__(Model)
+    for k, v in (("n_periods", 2), ("functions", funcs), ("states", states), ("choices", choices), ("description", None)):
+        object.__setattr__(model, k, v)
     got = _create_function_params(model)
     exp = _expected(funcs, states, choices)
     return list(got) == list(funcs) and all(list(got[k]) == exp[k] for k in funcs) and all(v != v for d in got.values() for v in d.values())
